@@ -102,9 +102,13 @@ def flat4 {α} (a : NDA α) : List α := (a.transpose [2, 1, 0, 3]).toList
 /-- `a.transpose((2, 1, 0)).reshape(-1)` -/
 def flat3 {α} (a : NDA α) : List α := (a.transpose [2, 1, 0]).toList
 
+/-- the scalar array of the component called `lbl` (`getattr(self, lbl)` uses `vdims.index`) -/
+def compVArr (f : Fld) (vs : List String) (lbl : String) : VArr :=
+  ⟨lbl, 1, false, flat4 (compArr f ((indexOf? vs lbl).getD 0))⟩
+
 /-- the loop `for comp in self.vdims: cell_data.AddArray(getattr(self, comp)…)` -/
 def compArrays (f : Fld) (vs : List String) (acc : List VArr) : List VArr :=
-  vs.foldl (fun acc lbl => addArray acc ⟨lbl, 1, false, flat4 (compArr f ((indexOf? vs lbl).getD 0))⟩) acc
+  vs.foldl (fun acc lbl => addArray acc (compVArr f vs lbl)) acc
 
 def normVArr (f : Fld) : VArr := ⟨"norm", 1, false, flat4 (normSqArr f)⟩
 def fieldVArr (f : Fld) : VArr := ⟨"field", f.nvdim, false, flat4 (array4 f)⟩
@@ -388,5 +392,26 @@ def readVtk (g : Grid) (lines : List LLine) (sidecar : Option (List (String × R
   if g.cell.isEmpty then legacyRead lines sidecar else fromCells g sidecar
 
 def fromFile (v : VFile) : M Fld := readVtk v.grid [] v.sidecar
+
+/-! ## spec-layer vocabulary used by the theorems -/
+
+/-- labels that collide neither with each other nor with the fixed array names -/
+def LabelsOk (vs : List String) : Prop :=
+  hasDup vs = false ∧ ¬ "norm" ∈ vs ∧ ¬ "field" ∈ vs ∧ ¬ "valid" ∈ vs
+
+/-- a 3-d field as the `Field` constructor leaves it: mesh invariant, array and mask of the
+mesh's shape, every cell vector of length `nvdim`, labelled when it has more than one
+component -/
+structure WF (f : Fld) (nx ny nz : Nat) : Prop where
+  mesh : f.mesh.Inv
+  n : f.mesh.n = [nx, ny, nz]
+  dshape : f.data.shape = [nx, ny, nz]
+  vshape : f.valid.shape = [nx, ny, nz]
+  nv : 1 ≤ f.nvdim
+  labels : 1 < f.nvdim → ∃ vs, f.vdims = some vs ∧ vs.length = f.nvdim ∧ LabelsOk vs
+
+/-- the component arrays `to_vtk` adds -/
+def comps (f : Fld) : List VArr :=
+  if 1 < f.nvdim then (f.vdims.getD []).map (compVArr f (f.vdims.getD [])) else []
 
 end DFV.C16
